@@ -92,7 +92,10 @@ func (c01) Exec(seed int64, i int, tier string) Record {
 		doc = ToJnum(doc)
 	}
 	cfg := Config(false, nil)
-	out := Run(text, doc, &cfg)
+	f, out, tree := ParseTree(text, &cfg)
+	if f != nil {
+		out = SafeCall(f, doc)
+	}
 	rec := Record{Text: text, Doc: JSONText(doc), Tags: stepTags(p)}
 	if jn {
 		rec.Tags = append(rec.Tags, "decode:jnum")
@@ -118,7 +121,9 @@ func (c01) Exec(seed int64, i int, tier string) Record {
 	} else {
 		rec.Tags = append(rec.Tags, "outcome:err-"+out.ErrKind)
 	}
-	rec.Q = []LeanQ{{Driver: "spec", Line: "(q run " + p.Sexp() + " " + ValSexp(doc) + ")", Expect: exp, What: "result vs Spec.run"}}
+	rec.Q = []LeanQ{{Driver: "spec", Line: "(q run " + p.Sexp() + " " + ValSexp(doc) + ")", Expect: exp, What: "result vs Spec.run"},
+		{Driver: "impl", Line: "(q errk f " + p.Sexp() + " " + ValSexp(doc) + ")", Expect: out.ImplExpect(false), What: "result vs Impl.run"},
+		{Driver: "impl", Line: "(q tree f " + p.Sexp() + ")", Expect: "(q " + tree[1:], What: "parsed tree vs Build.build"}}
 	// non-trivial: selects ≥1 value through ≥2 steps or a filter / `..` / function
 	nontriv := false
 	if out.OK {
